@@ -255,11 +255,19 @@ Proof.
 Qed.
 
 (* ====================================================================== reading the tokens of a tree *)
+Lemma untiny_dict d : untiny (TDict d) = TDict (untiny_kvs d).
+Proof. reflexivity. Qed.
+Lemma untiny_list l : untiny (TList l) = TList (map untiny l).
+Proof. reflexivity. Qed.
+Lemma untiny_keys d : map fst (untiny_kvs d) = map fst d.
+Proof. unfold untiny_kvs. rewrite map_map. reflexivity. Qed.
+
+(* what is read is the tree with its decimals to 8 places ([untiny]: identity unless a non-zero decimal below 5e-9 occurs) *)
 Definition Reads (v : tree) : Prop :=
   wf_tree v = true ->
   (forall acc k more, name_ok k = true ->
-     PD acc ((KProp, 47 :: k) :: vtoks v ++ more) = PD (set_kv k v acc) more) /\
-  (forall acc more, PL acc (vtoks v ++ more) = PL (acc ++ [v]) more).
+     PD acc ((KProp, 47 :: k) :: vtoks v ++ more) = PD (set_kv k (untiny v) acc) more) /\
+  (forall acc more, PL acc (vtoks v ++ more) = PL (acc ++ [untiny v]) more).
 
 Lemma key_of_name k : name_ok k = true -> key_of (47 :: k) = k.
 Proof. intros H. destruct (prop_classify k H) as (_ & _ & F). exact F. Qed.
@@ -270,7 +278,7 @@ Proof.
 Qed.
 
 Lemma reads_entries d : Forall (fun kv => Reads (snd kv)) d -> wf_entries d = true ->
-  forall acc more, PD acc (etoks d ++ more) = PD (add_all acc d) more.
+  forall acc more, PD acc (etoks d ++ more) = PD (add_all acc (untiny_kvs d)) more.
 Proof.
   induction 1 as [|[k v] r Hv Hr IH]; intros W acc more; [reflexivity|].
   cbn [wf_entries forallb fst snd] in W. apply andb_true_iff in W as [W1 W2]. apply andb_true_iff in W1 as [N Wv].
@@ -280,7 +288,7 @@ Proof.
 Qed.
 
 Lemma reads_items l : Forall Reads l -> forallb wf_tree l = true ->
-  forall acc more, PL acc (ltoks l ++ more) = PL (acc ++ l) more.
+  forall acc more, PL acc (ltoks l ++ more) = PL (acc ++ map untiny l) more.
 Proof.
   induction 1 as [|v r Hv Hr IH]; intros W acc more; [cbn; rewrite app_nil_r; reflexivity|].
   cbn [forallb] in W. apply andb_true_iff in W as [Wv W2].
@@ -293,17 +301,17 @@ Proof.
   apply tree_ind2.
   - (* Dict *)
     intros d Hd W. rewrite wf_dict in W. apply andb_true_iff in W as [ND WE].
-    assert (INNER : forall more, PD [] (etoks d ++ (KDictEnd, [62;62]) :: more) = Ok (d, more)).
-    { intros more. rewrite (reads_entries d Hd WE). rewrite add_all_nodup by exact ND. apply PD_end. }
-    rewrite vtoks_dict. split.
+    assert (INNER : forall more, PD [] (etoks d ++ (KDictEnd, [62;62]) :: more) = Ok (untiny_kvs d, more)).
+    { intros more. rewrite (reads_entries d Hd WE). rewrite add_all_nodup by (rewrite untiny_keys; exact ND). apply PD_end. }
+    rewrite vtoks_dict, untiny_dict. split.
     + intros acc k more N. cbn [app]. rewrite PD_dict. rewrite <- app_assoc. cbn [app]. rewrite INNER.
       rewrite key_of_name by exact N. reflexivity.
     + intros acc more. cbn [app]. rewrite PL_dict. rewrite <- app_assoc. cbn [app]. rewrite INNER. reflexivity.
   - (* List *)
     intros l Hl W. rewrite wf_list in W.
-    assert (INNER : forall more, PL [] (ltoks l ++ (KArrEnd, [93]) :: more) = Ok (l, more)).
+    assert (INNER : forall more, PL [] (ltoks l ++ (KArrEnd, [93]) :: more) = Ok (map untiny l, more)).
     { intros more. rewrite (reads_items l Hl W). apply PL_end. }
-    rewrite vtoks_list. split.
+    rewrite vtoks_list, untiny_list. split.
     + intros acc k more N. cbn [app]. rewrite PD_list. rewrite <- app_assoc. cbn [app]. rewrite INNER.
       rewrite key_of_name by exact N. reflexivity.
     + intros acc more. cbn [app]. rewrite PL_list. rewrite <- app_assoc. cbn [app]. rewrite INNER. reflexivity.
@@ -316,18 +324,65 @@ Proof.
 Qed.
 
 (* reading the token sequence of a whole engine-data dictionary, with or without its container *)
-Theorem parse_tokens_container d : wf_tree (TDict d) = true -> parse_tokens (vtoks (TDict d)) = Ok d.
+Theorem parse_tokens_container d : wf_tree (TDict d) = true -> parse_tokens (vtoks (TDict d)) = Ok (untiny_kvs d).
 Proof.
   intros W. pose proof W as W'. rewrite wf_dict in W'. apply andb_true_iff in W' as [ND WE].
   rewrite parse_tokens_PD, vtoks_dict, PD_skip_start.
   rewrite (reads_entries d). 2: { apply Forall_forall. intros kv _. apply reads_all. } 2: exact WE.
-  rewrite add_all_nodup by exact ND. rewrite PD_end. reflexivity.
+  rewrite add_all_nodup by (rewrite untiny_keys; exact ND). rewrite PD_end. reflexivity.
 Qed.
 
-Theorem parse_tokens_bare d : wf_tree (TDict d) = true -> parse_tokens (etoks d) = Ok d.
+Theorem parse_tokens_bare d : wf_tree (TDict d) = true -> parse_tokens (etoks d) = Ok (untiny_kvs d).
 Proof.
   intros W. pose proof W as W'. rewrite wf_dict in W'. apply andb_true_iff in W' as [ND WE].
   rewrite parse_tokens_PD. rewrite <- (app_nil_r (etoks d)).
   rewrite (reads_entries d). 2: { apply Forall_forall. intros kv _. apply reads_all. } 2: exact WE.
-  rewrite add_all_nodup by exact ND. rewrite PD_nil. reflexivity.
+  rewrite add_all_nodup by (rewrite untiny_keys; exact ND). rewrite PD_nil. reflexivity.
+Qed.
+
+(* ====================================================================== untiny: well-formed, idempotent, often the identity *)
+Lemma wf_untiny : forall t, wf_tree t = true -> wf_tree (untiny t) = true.
+Proof.
+  apply (tree_ind2 (fun t => wf_tree t = true -> wf_tree (untiny t) = true)).
+  - intros d H W. rewrite untiny_dict. rewrite wf_dict in *. apply andb_true_iff in W as [ND WE].
+    rewrite untiny_keys, ND. cbn [andb]. unfold wf_entries, untiny_kvs in *. rewrite forallb_forall in *.
+    intros kv' Hin. apply in_map_iff in Hin as (kv & <- & Hin). cbn [fst snd].
+    specialize (WE kv Hin). apply andb_true_iff in WE as [N Wv]. rewrite N. cbn [andb].
+    rewrite Forall_forall in H. apply (H kv Hin Wv).
+  - intros l H W. rewrite untiny_list. rewrite wf_list in *. rewrite forallb_forall in *.
+    intros x' Hin. apply in_map_iff in Hin as (x & <- & Hin). rewrite Forall_forall in H. apply (H x Hin (W x Hin)).
+  - intros t L W. destruct t; try discriminate; try exact W.
+    cbn [untiny wf_tree wf_leaf fmag ftiny] in *. apply andb_true_iff in W as [W1 _]. rewrite W1. reflexivity.
+Qed.
+
+Lemma untiny_idem : forall t, untiny (untiny t) = untiny t.
+Proof.
+  apply (tree_ind2 (fun t => untiny (untiny t) = untiny t)).
+  - intros d H. rewrite !untiny_dict. f_equal. unfold untiny_kvs. rewrite map_map. apply map_ext_in.
+    intros kv Hin. cbn [fst snd]. rewrite Forall_forall in H. rewrite (H kv Hin). reflexivity.
+  - intros l H. rewrite !untiny_list. f_equal. rewrite map_map. apply map_ext_in.
+    intros x Hin. rewrite Forall_forall in H. apply (H x Hin).
+  - intros t L. destruct t; try discriminate; reflexivity.
+Qed.
+
+(* no tiny decimal anywhere: [untiny] is the identity *)
+Fixpoint notiny (t : tree) : bool :=
+  match t with
+  | TDict d => (fix go (l : kvs) : bool := match l with [] => true | kv :: r => notiny (snd kv) && go r end) d
+  | TList l => (fix go (l : list tree) : bool := match l with [] => true | x :: r => notiny x && go r end) l
+  | TFloat f => negb (ftiny f)
+  | _ => true
+  end.
+Lemma notiny_untiny : forall t, notiny t = true -> untiny t = t.
+Proof.
+  apply (tree_ind2 (fun t => notiny t = true -> untiny t = t)).
+  - intros d H N. rewrite untiny_dict. f_equal. change (forallb (fun kv => notiny (snd kv)) d = true) in N.
+    unfold untiny_kvs. rewrite <- (map_id d) at 2. apply map_ext_in. intros [k v] Hin. cbn [fst snd].
+    rewrite Forall_forall in H. rewrite forallb_forall in N. pose proof (H (k, v) Hin (N (k, v) Hin)) as E.
+    cbn [snd] in E. rewrite E. reflexivity.
+  - intros l H N. rewrite untiny_list. f_equal. change (forallb notiny l = true) in N.
+    rewrite <- (map_id l) at 2. apply map_ext_in. intros x Hin.
+    rewrite Forall_forall in H. rewrite forallb_forall in N. apply (H x Hin (N x Hin)).
+  - intros t L N. destruct t; try discriminate; try reflexivity.
+    destruct f as [n m ti]. cbn [notiny ftiny] in N. destruct ti; [discriminate|reflexivity].
 Qed.
